@@ -960,6 +960,7 @@ func (x *protoExec) compare(ci int, rc *refConn, got []Reply, closedByServer boo
 // roundTrip: the repository's own codec must parse a well-formed command, serialise it and
 // parse it back to the same request (checked in situ on the commands the server answered).
 func roundTrip(raw []byte) string {
+	config.MCConf.MaxReq = 16
 	memcache.InitTokens() // tokens of the finished world may still be held by its dead tasks
 	read := func(b []byte) (*memcache.Request, error) {
 		req := new(memcache.Request)
